@@ -127,6 +127,17 @@ class C06(common.Prop):
             {'layered': '{[#A][#B]}.{#A=[>][#P][#T][<],#B=[>][#T][<]}.{#P=[>]CO[<],#T=[>]CCO[<]}',
              'flat': '{[#P][#T][#T]}.{#P=[>]CO[<],#T=[>]CCO[<]}', 'coarse_last': False, 'levels': 2, 'mol': None,
              'nparts': 3, 'directional': True, 'calls': ['CAll']},
+            # a virtual particle ALONE in an intermediate fragment that is attached by order-0 edges only: after the
+            # first step it is an isolated node without fragment at the next level (seed C06-11), coarse and all-atom
+            {'layered': '{[#RING].[#VS]}.{#RING=[#SP4r]1[#SP4r][#SP1r]1,#VS=[#TC4]}.{#SP4r=OC[$]C[$]O,#SP1r=[$]OC[$]CO}',
+             'flat': '{[#SP4r]1[#SP4r][#SP1r]1.[#TC4]}.{#SP4r=OC[$]C[$]O,#SP1r=[$]OC[$]CO}', 'coarse_last': False,
+             'levels': 2, 'mol': None, 'nparts': 4, 'calls': ['CResolve', 'CResolve', 'CAll', 'CIter']},
+            {'layered': '{[#VS].[#BLK]}.{#VS=[#V],#BLK=[#P][#Q]}.{#P=CC[$],#Q=[$]CO}',
+             'flat': '{[#V].[#P][#Q]}.{#P=CC[$],#Q=[$]CO}', 'coarse_last': False,
+             'levels': 2, 'mol': None, 'nparts': 3, 'calls': ['CAll', 'CIter']},
+            {'layered': '{[#BLK].([#VS])[#BLK]}.{#VS=[#V],#BLK=[<][#P][#Q][>]}.{#P=[<][#x][$a],#Q=[$a][#y][>]}',
+             'flat': '{[#P][#Q].([#V])[#P][#Q]}.{#P=[<][#x][$a],#Q=[$a][#y][>]}', 'coarse_last': True,
+             'levels': 2, 'mol': None, 'nparts': 5, 'calls': ['CResolve', 'CAll']},
         ]
 
     def generate(self, ctx, n):
